@@ -1,0 +1,53 @@
+// Copyright © 2024 Attestant Limited.
+// Licensed under the Apache License, Version 2.0 (the "License");
+// you may not use this file except in compliance with the License.
+// You may obtain a copy of the License at
+//
+//     http://www.apache.org/licenses/LICENSE-2.0
+//
+// Unless required by applicable law or agreed to in writing, software
+// distributed under the License is distributed on an "AS IS" BASIS,
+// WITHOUT WARRANTIES OR CONDITIONS OF ANY KIND, either express or implied.
+// See the License for the specific language governing permissions and
+// limitations under the License.
+
+//go:build verif
+
+// Package verifhook provides instrumentation points for external verification
+// harnesses.  With the "verif" build tag a handler can be installed that observes,
+// delays, fails or kills at each point.
+package verifhook
+
+import "sync/atomic"
+
+// Handler is called at every instrumentation point.  A non-nil error returned from a
+// Point call is propagated to the caller of the instrumented function.
+type Handler func(name string, keys [][]byte) error
+
+var handler atomic.Pointer[Handler]
+
+// Set installs the handler (nil removes it).
+func Set(h Handler) {
+	if h == nil {
+		handler.Store(nil)
+
+		return
+	}
+	handler.Store(&h)
+}
+
+// Point marks an instrumentation point.
+func Point(name string, keys ...[]byte) error {
+	if h := handler.Load(); h != nil {
+		return (*h)(name, keys)
+	}
+
+	return nil
+}
+
+// Done marks the end of an instrumented region; any error from the handler is ignored.
+func Done(name string, keys ...[]byte) {
+	if h := handler.Load(); h != nil {
+		_ = (*h)(name, keys)
+	}
+}
